@@ -818,14 +818,17 @@ fn build_deref_for_struct(
         DeriveItemKind::Deref => {
             quote! {
                 type Target = #target_ty;
-                fn deref(&self) -> & #target_ty {
+                fn deref(&self) -> &Self::Target {
                     &self.#member
                 }
             }
         }
         DeriveItemKind::DerefMut => {
             quote! {
-                fn deref_mut(&mut self) -> &mut #target_ty {
+                fn deref_mut(&mut self) -> &mut Self::Target {
+                    // `Self::Target` has to be the type of the field itself, not one it coerces to
+                    let _: ::core::marker::PhantomData<#target_ty> =
+                        ::core::marker::PhantomData::<Self::Target>;
                     &mut self.#member
                 }
             }
